@@ -23,8 +23,9 @@ import TLX.Py
 namespace TLX.PyRt
 open TLX
 
-/-- the Python exceptions the subset can raise -/
-inductive Err | index | zeroDiv | value | overflow | key
+/-- the Python exceptions the subset can raise; `fuel` is not one: a `while` loop ran out of the rounds its spec
+    allows (the theorems exclude it) -/
+inductive Err | index | zeroDiv | value | overflow | key | fuel
   deriving DecidableEq, Repr, Inhabited
 
 /-- how a statement list was left -/
@@ -133,5 +134,69 @@ def forE {σ ι : Type} (l : List ι) (st : σ) (body : σ → ι → Except Err
     match body st i with
     | .error e => .error e
     | .ok st' => forE rest st' body
+
+/-- one round of a loop that can be left by `return`: go on with the new state, or leave with the result -/
+inductive Step (σ ρ : Type)
+  | next (s : σ)
+  | ret (r : ρ)
+
+/-- `for x in l: …` whose body may raise or `return` -/
+def forS {σ ι ρ : Type} (l : List ι) (st : σ) (body : σ → ι → Except Err (Step σ ρ)) : Except Err (Step σ ρ) :=
+  match l with
+  | [] => .ok (.next st)
+  | i :: rest =>
+    match body st i with
+    | .error e => .error e
+    | .ok (.ret r) => .ok (.ret r)
+    | .ok (.next s) => forS rest s body
+
+/-- `while cond: …` with at most `fuel` rounds; needing more is `.error .fuel` -/
+def whileS {σ ρ : Type} (fuel : Nat) (st : σ) (cond : σ → Bool) (body : σ → Except Err (Step σ ρ)) :
+    Except Err (Step σ ρ) :=
+  match fuel with
+  | 0 => if cond st then .error .fuel else .ok (.next st)
+  | n + 1 =>
+    if cond st then
+      match body st with
+      | .error e => .error e
+      | .ok (.ret r) => .ok (.ret r)
+      | .ok (.next s) => whileS n s cond body
+    else .ok (.next st)
+
+/-- what follows a loop, per way it ended (no `match` in generated code) -/
+@[inline] def loopS {σ ρ β : Type} (x : Except Err (Step σ ρ)) (onErr : Err → β) (onRet : ρ → β) (onNext : σ → β) : β :=
+  match x with
+  | .error e => onErr e
+  | .ok (.ret r) => onRet r
+  | .ok (.next s) => onNext s
+
+@[simp] theorem loopS_next {σ ρ β : Type} (s : σ) (f : Err → β) (g : ρ → β) (h : σ → β) :
+    loopS (.ok (.next s) : Except Err (Step σ ρ)) f g h = h s := rfl
+@[simp] theorem loopS_ret {σ ρ β : Type} (r : ρ) (f : Err → β) (g : ρ → β) (h : σ → β) :
+    loopS (.ok (.ret r) : Except Err (Step σ ρ)) f g h = g r := rfl
+@[simp] theorem loopS_error {σ ρ β : Type} (e : Err) (f : Err → β) (g : ρ → β) (h : σ → β) :
+    loopS (.error e : Except Err (Step σ ρ)) f g h = f e := rfl
+
+/-- `enumerate(x)` on bytes, counting from `n` -/
+def enumFrom (n : Nat) : Bytes → List (Nat × Nat)
+  | [] => []
+  | b :: r => (n, b.toNat) :: enumFrom (n + 1) r
+
+/-- iterating over bytes yields ints -/
+def bytesNat (b : Bytes) : List Nat := b.map UInt8.toNat
+
+/-- `range(a, b, step)` for `a, b ≥ 0`, `step > 0` -/
+def rangeStep (a b step : Nat) : List Nat := (List.range ((b - a + step - 1) / step)).map fun i => a + i * step
+
+/-- `x[a:b] = v` on a bytearray (`a, b ≥ 0`): the slice `[a', max a' b')` after clamping is replaced -/
+def setSlice (x : Bytes) (a b : Nat) (v : Bytes) : Bytes :=
+  x.take (min a x.length) ++ v ++ x.drop (max (min a x.length) (min b x.length))
+
+/-- `x[i] = v` on a bytearray: IndexError, ValueError (`v` not in range(256)) -/
+def setItemE (x : Bytes) (i v : Int) : Except Err Bytes :=
+  let j := if i < 0 then i + x.length else i
+  if j < 0 ∨ j ≥ x.length then .error .index
+  else if v < 0 ∨ v ≥ 256 then .error .value
+  else .ok (x.set j.toNat (UInt8.ofNat v.toNat))
 
 end TLX.PyRt
